@@ -8,3 +8,188 @@ package vikja
 //@ type State
 //@   guarded_by entityActions : entityActionMutex
 //@   lock_level entityActionMutex = 45
+
+// ---------------------------------------------------------------------------------------------
+// Entity actions: view  action : (entity, name) -> latest action
+// ---------------------------------------------------------------------------------------------
+
+//@ spec fn hasAction(s *State, e uint32, n string) bool = e in s.entityActions && n in s.entityActions[e]
+//@ spec fn actionAt(s *State, e uint32, n string) *vikjapb.EntityAction = s.entityActions[e][n]
+//@ spec fn inst(ts *timestamppb.Timestamp) int = ts.Seconds * 1000000000 + ts.Nanos
+//@ spec fn wfActions(s *State) bool = (forall e: uint32 :: e in s.entityActions ==> s.entityActions[e] != nil)
+//@     && (forall e1: uint32, e2: uint32 :: e1 in s.entityActions && e2 in s.entityActions && s.entityActions[e1] == s.entityActions[e2] ==> e1 == e2)
+//@     && (forall e: uint32, n: string :: hasAction(s, e, n) ==> actionAt(s, e, n) != nil && actionAt(s, e, n).EntityId == e && actionAt(s, e, n).Name == n && actionAt(s, e, n).Timestamp != nil)
+//@ spec fn wfVikja(m *Module) bool = m.currentSession != nil ==> m.state != nil && wfActions(m.state) && wfEnts(m.currentSession) && wfParts(m.currentSession)
+
+//@ func (*modules/vikja.State).SetEntityAction
+//@   property C16
+//@   requires wfActions(s) && ea != nil && ea.Timestamp != nil
+//@   modifies s.entityActions, contents(s.entityActions), contents(s.entityActions[ea.EntityId])
+//@   allocates
+//@   ensures wfActions(s)
+//@   ensures {C16} hasAction(s, ea.EntityId, ea.Name) && actionAt(s, ea.EntityId, ea.Name) == ea
+//@   ensures {C16} forall e: uint32, n: string :: (e != ea.EntityId || n != ea.Name) ==> (hasAction(s, e, n) <==> old(hasAction(s, e, n))) && (hasAction(s, e, n) ==> actionAt(s, e, n) == old(actionAt(s, e, n)))
+
+//@ func (*modules/vikja.State).EntityAction
+//@   property C16
+//@   requires wfActions(s)
+//@   modifies nothing
+//@   ensures result1 <==> hasAction(s, entityID, actionName)
+//@   ensures result1 ==> result0 == actionAt(s, entityID, actionName)
+
+//@ func (*modules/vikja.State).RemoveEntityActions
+//@   property C16, C06
+//@   requires wfActions(s)
+//@   modifies contents(s.entityActions)
+//@   ensures wfActions(s)
+//@   ensures {C16,C06} forall e: uint32, n: string :: (hasAction(s, e, n) <==> (old(hasAction(s, e, n)) && e != entityID)) && (hasAction(s, e, n) ==> actionAt(s, e, n) == old(actionAt(s, e, n)))
+
+//@ func (*modules/vikja.State).EntityActions
+//@   property C16, C01
+//@   event
+//@   requires wfActions(s)
+//@   modifies nothing
+//@   allocates
+//@   ensures {C16,C01} forall j: int :: 0 <= j && j < len(result) ==> result[j] != nil && hasAction(s, result[j].EntityId, result[j].Name) && actionAt(s, result[j].EntityId, result[j].Name) == result[j]
+//@   ensures {C16,C01} forall e: uint32, n: string :: hasAction(s, e, n) ==> exists j: int :: 0 <= j && j < len(result) && result[j] == actionAt(s, e, n)
+//@   loop 1:
+//@     ghost pos
+//@     invariant forall k: uint32 :: k in V1 ==> k in s.entityActions
+//@     invariant forall j: int :: 0 <= j && j < len($entityActions) ==> $entityActions[j] != nil && hasAction(s, $entityActions[j].EntityId, $entityActions[j].Name) && actionAt(s, $entityActions[j].EntityId, $entityActions[j].Name) == $entityActions[j]
+//@     invariant forall e: uint32, n: string :: e in V1 && hasAction(s, e, n) ==> 0 <= pos[actionAt(s, e, n)] && pos[actionAt(s, e, n)] < len($entityActions) && $entityActions[pos[actionAt(s, e, n)]] == actionAt(s, e, n)
+//@   loop 2:
+//@     update pos[$ea] = len($entityActions) - 1
+//@     invariant forall k: uint32 :: k in V1 ==> k in s.entityActions
+//@     invariant exists e0: uint32 :: e0 in V1 && e0 in s.entityActions && s.entityActions[e0] == $eas
+//@     invariant forall j: int :: 0 <= j && j < len($entityActions) ==> $entityActions[j] != nil && hasAction(s, $entityActions[j].EntityId, $entityActions[j].Name) && actionAt(s, $entityActions[j].EntityId, $entityActions[j].Name) == $entityActions[j]
+//@     invariant forall e: uint32, n: string :: e in V1 && hasAction(s, e, n) && (s.entityActions[e] != $eas || n in V2) ==> 0 <= pos[actionAt(s, e, n)] && pos[actionAt(s, e, n)] < len($entityActions) && $entityActions[pos[actionAt(s, e, n)]] == actionAt(s, e, n)
+
+// ---------------------------------------------------------------------------------------------
+// Module entry points
+// ---------------------------------------------------------------------------------------------
+
+//@ func (*modules/vikja.Module).Init
+//@   property C16
+//@   requires s != nil && p != nil && s.moduleStates != nil
+//@   requires "vikja" in s.moduleStates ==> dyntype(s.moduleStates["vikja"], *State) && s.moduleStates["vikja"].(*State) != nil
+//@   modifies m.currentSession, m.currentParticipant, m.state, contents(s.moduleStates)
+//@   allocates
+//@   ensures m.currentSession == s && m.currentParticipant == p && m.state != nil
+//@   ensures {C16} "vikja" in s.moduleStates && s.moduleStates["vikja"].(*State) == m.state
+//@   ensures {C16} old("vikja" in s.moduleStates) ==> m.state == old(s.moduleStates["vikja"].(*State)) && same_contents(s.moduleStates)
+
+//@ func (*modules/vikja.Module).handleSetEntityAction
+//@   event
+//@   modifies m.state.entityActions, contents(m.state.entityActions), all contents(map[string]*vikjapb.EntityAction @ modules/vikja.State.entityActions[]), all ghost.*
+//@   allocates
+//@   property C16, C04
+//@   let req = decoded(msg, vikjapb.EntityActionRequest)
+//@   let A = decoded(msg, vikjapb.EntityActionRequest).EntityAction
+//@   let S = m.currentSession
+//@   let P = m.currentParticipant
+//@   let St = m.state
+//@   requires wfVikja(m) && respond != nil
+//@   ensures wfVikja(m)
+//@   behaviour undecodable:
+//@     assumes !decode_ok(msg)
+//@     ensures result != nil && unchanged_world()
+//@     emits []
+//@   behaviour not_joined:
+//@     assumes decode_ok(msg) && (S == nil || P == nil)
+//@     ensures {C04,C03} result != nil && unchanged_world()
+//@     emits {C04,C03} []
+//@   behaviour malformed:
+//@     assumes decode_ok(msg) && S != nil && P != nil && (A == nil || A.Name == "" || A.Timestamp == nil)
+//@     ensures {C16} result == nil && unchanged_world()
+//@     emits {C16,C04} [send(respond, hagallpb.ErrorResponse{Type: hagallpb.MsgType_MSG_TYPE_ERROR_RESPONSE, RequestId: req.RequestId, Code: hagallpb.ErrorCode_ERROR_CODE_BAD_REQUEST})]
+//@   behaviour no_entity:
+//@     assumes decode_ok(msg) && S != nil && P != nil && A != nil && A.Name != "" && A.Timestamp != nil && !(A.EntityId in S.entities)
+//@     ensures {C16} result == nil && unchanged_world()
+//@     emits {C16,C04} [send(respond, hagallpb.ErrorResponse{Type: hagallpb.MsgType_MSG_TYPE_ERROR_RESPONSE, RequestId: req.RequestId, Code: hagallpb.ErrorCode_ERROR_CODE_BAD_REQUEST})]
+//@   behaviour stale:
+//@     assumes decode_ok(msg) && S != nil && P != nil && A != nil && A.Name != "" && A.Timestamp != nil && A.EntityId in S.entities && hasAction(St, A.EntityId, A.Name) && A.Timestamp.Seconds * 1000000000 + A.Timestamp.Nanos < inst(actionAt(St, A.EntityId, A.Name).Timestamp)
+//@     ensures {C16} result == nil && unchanged_world()
+//@     emits {C16,C04,C02} [send(respond, hagallpb.ErrorResponse{Type: hagallpb.MsgType_MSG_TYPE_ERROR_RESPONSE, RequestId: req.RequestId, Code: hagallpb.ErrorCode_ERROR_CODE_BAD_REQUEST})]
+//@   behaviour accepted:
+//@     assumes decode_ok(msg) && S != nil && P != nil && A != nil && A.Name != "" && A.Timestamp != nil && A.EntityId in S.entities && !(hasAction(St, A.EntityId, A.Name) && A.Timestamp.Seconds * 1000000000 + A.Timestamp.Nanos < inst(actionAt(St, A.EntityId, A.Name).Timestamp))
+//@     ensures {C16} result == nil && hasAction(St, A.EntityId, A.Name) && actionAt(St, A.EntityId, A.Name) == A
+//@     ensures {C16} forall e: uint32, n: string :: (e != A.EntityId || n != A.Name) ==> (hasAction(St, e, n) <==> old(hasAction(St, e, n))) && (hasAction(St, e, n) ==> actionAt(St, e, n) == old(actionAt(St, e, n)))
+//@     emits {C16,C04,C02} [send(respond, vikjapb.EntityActionResponse{Type: vikjapb.MsgType_MSG_TYPE_VIKJA_ENTITY_ACTION_RESPONSE, RequestId: req.RequestId}); Broadcast(S, P, vikjapb.EntityActionBroadcast{Type: vikjapb.MsgType_MSG_TYPE_VIKJA_ENTITY_ACTION_BROADCAST, OriginTimestamp: req.Timestamp, EntityAction: A})]
+//@   complete behaviours
+//@   disjoint behaviours
+
+//@ func (*modules/vikja.Module).handleEntityDelete
+//@   event
+//@   modifies contents(m.state.entityActions)
+//@   allocates
+//@   property C16, C06
+//@   let id = decoded(msg, hagallpb.EntityDeleteRequest).EntityId
+//@   let S = m.currentSession
+//@   let St = m.state
+//@   requires wfVikja(m) && m.currentSession != nil
+//@   ensures wfVikja(m)
+//@   emits []
+//@   behaviour undecodable:
+//@     assumes !decode_ok(msg)
+//@     ensures result != nil && unchanged_world()
+//@   behaviour still_there:
+//@     assumes decode_ok(msg) && id in S.entities
+//@     ensures result == nil && unchanged_world()
+//@   behaviour cascade:
+//@     assumes decode_ok(msg) && !(id in S.entities)
+//@     ensures {C16,C06} result == nil && forall e: uint32, n: string :: (hasAction(St, e, n) <==> (old(hasAction(St, e, n)) && e != id)) && (hasAction(St, e, n) ==> actionAt(St, e, n) == old(actionAt(St, e, n)))
+//@   complete behaviours
+//@   disjoint behaviours
+
+//@ func (*modules/vikja.Module).handleParticipantJoin
+//@   event
+//@   modifies all ghost.*
+//@   allocates
+//@   property C16, C01
+//@   requires wfVikja(m) && m.currentSession != nil && respond != nil
+//@   ensures result == nil && unchanged_world()
+//@   emits {C16,C01} [EntityActions(m.state); send(respond, vikjapb.State{Type: vikjapb.MsgType_MSG_TYPE_VIKJA_STATE})]
+
+//@ func (*modules/vikja.Module).HandleDisconnect
+//@   property C16, C06
+//@   let S = m.currentSession
+//@   let P = m.currentParticipant
+//@   let St = m.state
+//@   requires wfVikja(m)
+//@   requires m.currentParticipant != nil ==> m.currentSession != nil
+//@   ensures wfVikja(m)
+//@   behaviour unbound:
+//@     assumes P == nil
+//@     ensures unchanged_world()
+//@   behaviour bound:
+//@     assumes P != nil
+//@     ensures {C16,C06} forall e: uint32, n: string :: (hasAction(St, e, n) <==> (old(hasAction(St, e, n)) && !(e in P.entityIDs && (!(e in S.entities) || !S.entities[e].Persist)))) && (hasAction(St, e, n) ==> actionAt(St, e, n) == old(actionAt(St, e, n)))
+//@   complete behaviours
+//@   disjoint behaviours
+//@   loop 1:
+//@     invariant wfActions(St)
+//@     invariant forall k: uint32 :: k in V ==> k in P.entityIDs
+//@     invariant forall e: uint32, n: string :: (hasAction(St, e, n) <==> (old(hasAction(St, e, n)) && !(e in V && (!(e in S.entities) || !S.entities[e].Persist)))) && (hasAction(St, e, n) ==> actionAt(St, e, n) == old(actionAt(St, e, n)))
+
+//@ func (*modules/vikja.Module).HandleMsg
+//@   property C16, C04
+//@   let isJoin = msgtype(msg) == enum(hagallpb.MsgType_MSG_TYPE_PARTICIPANT_JOIN_REQUEST)
+//@   let isDelete = msgtype(msg) == enum(hagallpb.MsgType_MSG_TYPE_ENTITY_DELETE_REQUEST)
+//@   let isOwn = enumnum(msgtype(msg)) == vikjapb.MsgType_MSG_TYPE_VIKJA_ENTITY_ACTION_REQUEST
+//@   requires wfVikja(m) && respond != nil && m.currentSession != nil && msgtype(msg) != nil
+//@   requires m.state.entityActions == m.state.entityActions
+//@   behaviour join:
+//@     assumes isJoin
+//@     emits {C16,C04} [handleParticipantJoin(m, _, respond, msg)]
+//@   behaviour delete:
+//@     assumes !isJoin && isDelete
+//@     emits {C16,C04} [handleEntityDelete(m, _, respond, msg)]
+//@   behaviour own:
+//@     assumes !isJoin && !isDelete && isOwn
+//@     emits {C16,C04} [handleSetEntityAction(m, _, respond, msg)]
+//@   behaviour skip:
+//@     assumes !isJoin && !isDelete && !isOwn
+//@     ensures {C16,C04} istype(result, hwebsocket.ErrTypeMsgSkip) && unchanged_world()
+//@     emits {C16,C04} []
+//@   complete behaviours
+//@   disjoint behaviours
